@@ -215,3 +215,19 @@ META["C17"] = M(
          "stream (conservation), the Hutchinson estimate recomputed from the recorded probes for all offsets k and both probe "
          "distributions, probe moments in 7-sigma bands, iteration cap on recorded loop states, and a keyed 60-run bias test; "
          "distinct = configuration / history signature")
+
+META["C18"] = M(
+    shards={"quick": 16, "thorough": 64}, budget={"quick": 70, "thorough": 1500},
+    floors={"quick": {"evals": 10000, "distinct": 3000}, "thorough": {"evals": 300000, "distinct": 60000}},
+    required=["caller-arrays-bit-identical", "operator-unchanged", "repeated-call-same-result", "round-trip-same-operator",
+              "leaves-are-exactly-the-array-parameters", "substituting-a-leaf", "independent-of-instantiation-order"],
+    rule="histories over an alphabet of ~45 public operations (products on both sides, .T/.H, algebra, annotation wrapper, "
+         "indexing, to(dtype), inv/solve/pinv with each algorithm incl. caller-supplied x0 / preconditioner, slogdet, diag/trace, "
+         "matrix functions, eig/svd, cholesky/plu, Lanczos/Arnoldi/CG/GMRES with caller-supplied start vectors, flatten/"
+         "unflatten) applied to a pool with one operator of every kind (incl. Fortran-ordered and non-contiguous view "
+         "payloads), real and complex: every history of length 1, every/a sample of length 2 (all in thorough, plus a sample of "
+         "length 3) and random length-10 histories; after every step byte hashes of all caller-owned arrays and a snapshot of the "
+         "operator (dense, annotations, shape, dtype, leaves) are compared with the start, and the first call is repeated at the "
+         "end; flatten/unflatten round trip with leaf identity and single-leaf substitution for every kind; and the round trip "
+         "re-run in fresh interpreters after instantiating kinds in different orders (verdicts compared across orders); "
+         "distinct = pool member + dtype + history")
